@@ -65,8 +65,25 @@ def fields(*parts):
 
 # ---------------------------------------------------------------------------------------
 # build
+def strip_coq_comments(txt):
+    out, depth, j = [], 0, 0
+    while j < len(txt):
+        if txt.startswith("(*", j):
+            depth += 1
+            j += 2
+        elif txt.startswith("*)", j) and depth:
+            depth -= 1
+            j += 2
+        else:
+            if depth == 0:
+                out.append(txt[j])
+            j += 1
+    return "".join(out)
+
+
 class Build:
     def __init__(self):
+        self.printed = []
         self.translate_ok = True
         self.translate_log = ""
         self.proof_ok = True
@@ -91,7 +108,10 @@ def base_env():
     return env
 
 
-GATE_RE = re.compile(r"\b(Admitted|admit|Axiom|Parameter|Conjecture|Unset\s+Guard|bypass_check|type-in-type|Admit\s+Obligations)\b")
+GATE_RE = re.compile(r"\b(Admitted|admit|give_up|Axiom|Axioms|Parameter|Parameters|Conjecture|Conjectures|"
+                     r"Unset\s+(Guard|Positivity|Universe)|bypass_check|type-in-type|impredicative-set|Admit\s+Obligations|"
+                     r"native_compute|Program\s+(Fixpoint|Definition|Lemma|Theorem|Instance)|Obligation)\b")
+DECL_RE = re.compile(r"\s*(Local\s+|Global\s+|#\[[^\]]*\]\s*)*(Variable|Variables|Hypothesis|Hypotheses|Context)\b")
 
 
 def grep_gate(only=None):
@@ -107,6 +127,7 @@ def grep_gate(only=None):
             if only is not None and os.path.normpath(path) not in only:
                 continue
             depth = 0
+            scopes = []          # open Section / Module names, innermost last
             for i, line in enumerate(open(path, errors="replace"), 1):
                 # strip comments (nesting-aware, line granularity is enough for this gate)
                 code = []
@@ -125,10 +146,18 @@ def grep_gate(only=None):
                 code = re.sub(r'"[^"]*"', '""', "".join(code))
                 if GATE_RE.search(code):
                     bad.append("%s:%d: %s" % (os.path.relpath(path, COQ), i, code.strip()))
-                if re.match(r"\s*(Variable|Variables|Hypothesis|Hypotheses|Context)\b", code):
-                    # allowed only inside a Section: checked by Coq itself (outside a section these
-                    # declare axioms and print a warning we turn into an error below)
-                    pass
+                for m in re.finditer(r"(?:^|\.\s+|^\s*)(Section|Module\s+Type|Module|End)\s+([A-Za-z_][\w']*)\s*(:=)?", code):
+                    kw, name, assign = m.group(1), m.group(2), m.group(3)
+                    if kw == "End":
+                        if scopes and scopes[-1][1] == name:
+                            scopes.pop()
+                    elif kw == "Section":
+                        scopes.append(("S", name))
+                    elif not assign:
+                        scopes.append(("M", name))
+                if DECL_RE.match(code) and not any(k == "S" for k, _ in scopes):
+                    # outside every Section these declare axioms (Coq 8.16 only warns: local-declaration)
+                    bad.append("%s:%d: %s  (Variable/Hypothesis/Context outside a Section)" % (os.path.relpath(path, COQ), i, code.strip()))
     return bad
 
 
@@ -142,13 +171,29 @@ def closure_files(target_v):
 def count_qed(files):
     n = 0
     for f in files:
-        txt = open(os.path.join(COQ, f), errors="replace").read()
+        txt = strip_coq_comments(open(os.path.join(COQ, f), errors="replace").read())
         n += len(re.findall(r"\b(Qed|Defined)\.", txt))
     return n
 
 
 def build(prop_id, model_targets):
-    """Translate + prove.  Returns a Build record; never raises on proof failure."""
+    """Translate + prove.  Returns a Build record; never raises (a timeout or a crashing tool is a broken proof)."""
+    try:
+        return _build(prop_id, model_targets)
+    except Exception as e:          # subprocess.TimeoutExpired, OSError, ...
+        import traceback
+        b = Build()
+        b.translate_ok = b.proof_ok = b.model_ok = False
+        b.proof_log = "build could not be completed: %r\n%s" % (e, traceback.format_exc())
+        try:
+            b.files = closure_files("Props/%s.v" % prop_id)
+            b.obligations = count_qed(b.files)
+        except Exception:
+            pass
+        return b
+
+
+def _build(prop_id, model_targets):
     b = Build()
     os.makedirs(OUT, exist_ok=True)
     lock = open(os.path.join(COQ, ".lock"), "w")
@@ -166,7 +211,7 @@ def build(prop_id, model_targets):
         b.proof_ok = rc == 0 and not gate and b.translate_ok
         if gate:
             b.proof_log += "\nGREP-GATE:\n" + "\n".join(gate)
-        if re.search(r"Warning:.*(declared as an? (axiom|parameter)|is declared as a local axiom)", out):
+        if re.search(r"(declared as an? (axiom|parameter)|is declared as a local axiom|local-declaration)", out):
             b.proof_ok = False
             b.proof_log += "\nAXIOM-WARNING in build output"
         # Print Assumptions output: re-run coqc on the Props file only when it was already built
@@ -177,6 +222,17 @@ def build(prop_id, model_targets):
             if rc2 != 0:
                 b.proof_ok = False
                 b.proof_log += "\n" + out2
+            # every Print Assumptions of the property file must answer "Closed under the global context"
+            src = strip_coq_comments(open(os.path.join(COQ, "Props/%s.v" % prop_id), errors="replace").read())
+            b.printed = re.findall(r"Print\s+Assumptions\s+([\w'.]+)\s*\.", src)
+            n_closed = len(re.findall(r"Closed under the global context", out2))
+            if re.search(r"^\s*Axioms:", out2, re.M) or n_closed != len(b.printed):
+                b.proof_ok = False
+                b.proof_log += ("\nPRINT-ASSUMPTIONS GATE: %d Print Assumptions commands, %d answered 'Closed under the global "
+                                "context'\n%s" % (len(b.printed), n_closed, out2[-1500:]))
+            if re.search(r"local-declaration", out2):
+                b.proof_ok = False
+                b.proof_log += "\nAXIOM-WARNING (local-declaration) in Props/%s.v" % prop_id
         b.files = closure_files("Props/%s.v" % prop_id)
         b.obligations = count_qed(b.files)
         # the model must be runnable even when a proof broke
@@ -216,6 +272,10 @@ def run_coq_cases(tag, requires, run_def, cases, shard=400, jobs=16, timeout=150
     procs = []
     results = {}
     err = None
+    jobs = max(2, min(jobs, os.cpu_count() or 4))
+    # shared lock: no other check may re-translate Gen/*.v or rebuild .vo files while these case files are evaluated
+    shlock = open(os.path.join(COQ, ".lock"), "a")
+    fcntl.flock(shlock, fcntl.LOCK_SH)
     pending = list(enumerate(names))
     running = []
     t_end = time.time() + timeout
@@ -234,7 +294,10 @@ def run_coq_cases(tag, requires, run_def, cases, shard=400, jobs=16, timeout=150
                 if p.poll() is None:
                     if time.time() > t_end:
                         p.kill()
+                        p.wait()
                         err = "coqc timeout on %s" % name
+                        results[k] = None
+                        continue
                     else:
                         still.append((k, name, p))
                         continue
@@ -262,6 +325,12 @@ def run_coq_cases(tag, requires, run_def, cases, shard=400, jobs=16, timeout=150
             if running:
                 time.sleep(0.05)
     finally:
+        for _k, _name, _p in running:
+            try:
+                _p.kill()
+                _p.wait()
+            except Exception:
+                pass
         for name in names:
             for ext in (".v", ".vo", ".vok", ".vos", ".glob"):
                 try:
@@ -272,6 +341,8 @@ def run_coq_cases(tag, requires, run_def, cases, shard=400, jobs=16, timeout=150
                 os.remove(os.path.join(corr, "." + name + ".aux"))
             except OSError:
                 pass
+        fcntl.flock(shlock, fcntl.LOCK_UN)
+        shlock.close()
     mism = []
     for k in range(len(shards)):
         r = results.get(k)
@@ -322,6 +393,41 @@ def write_evidence(prop_id, tier, seed, level, coverage, assumptions, wall_s, vi
           "violations": violations}
     with open(os.path.join(EVID, prop_id + ".json"), "w") as f:
         json.dump(ev, f, indent=1, default=str)
+
+
+def check_floors(prop_id, tier, res):
+    """Minimum numbers of cases (total and per histogram class) a run must have explored, fixed from the unchanged
+    tree (harness/floors.json, written by harness/make_floors.py, never at check time).  A regression that turns a
+    class of accepted inputs into rejected ones must not shrink the sample silently."""
+    msgs = []
+    if res.cases <= 0:
+        msgs.append("no case was explored")
+    try:
+        floors = json.load(open(os.path.join(VERIF, "harness", "floors.json"))).get(prop_id, {})
+    except Exception:
+        floors = {}
+    if floors:
+        if res.cases < floors.get("cases", 0):
+            msgs.append("%d cases explored, at least %d expected" % (res.cases, floors["cases"]))
+        if res.distinct_nontrivial < floors.get("distinct_nontrivial", 0):
+            msgs.append("%d distinct non-trivial cases, at least %d expected" % (res.distinct_nontrivial, floors["distinct_nontrivial"]))
+        hist = res.histogram or {}
+        for k, n in floors.get("histogram", {}).items():
+            v = hist.get(k, 0)
+            if isinstance(v, (int, float)) and v < n:
+                msgs.append("input class %r: %s cases, at least %d expected" % (k, v, n))
+    # the example corpus: files that were accepted on the unchanged tree must still be accepted
+    try:
+        import corpus_files
+        if corpus_files._cache is not None and not os.environ.get("LASIO_CORPUS_FREE"):
+            exp = [l.strip() for l in open(os.path.join(VERIF, "harness", "corpus_expected.txt")) if l.strip()]
+            have = {n for n, _ in corpus_files._cache}
+            gone = [n for n in exp if n not in have]
+            if gone:
+                msgs.append("example files no longer read/written: %s" % ", ".join(gone[:8]))
+    except FileNotFoundError:
+        pass
+    return msgs
 
 
 class Result:
